@@ -18,16 +18,32 @@ static int logger_calls_after_fini;
 
 static int burn_on; static long n_loaded_cases;
 static void *burner(void *a) { (void)a; volatile unsigned long x = 0; while (__atomic_load_n(&burn_on, __ATOMIC_ACQUIRE)) { for (int i = 0; i < 20000; i++) x += (unsigned long)i; } return NULL; }
+/* writes in progress per target, by a thread other than the application's (relaxed atomics: harness state) */
+static int thread_in_logger[QB_LOG_TARGET_MAX + 1];
+static int in_custom_close;     /* qb_log_custom_close() does not pause the logging thread: not judged */
+static long n_close_cb, n_disable_probes, n_disable_probes_busy_before;
 static void logger(int32_t t, struct qb_log_callsite *cs, struct timespec *ts, const char *msg)
 {
 	(void)cs; (void)ts;
 	int seq = -1;
+	int mine = pthread_equal(pthread_self(), app_thread);
+	if (!mine && t >= 0 && t <= QB_LOG_TARGET_MAX) __atomic_add_fetch(&thread_in_logger[t], 1, __ATOMIC_SEQ_CST);
 	const char *p = strchr(msg, '#');
 	if (p) seq = atoi(p + 1);
 	pthread_mutex_lock(&evlock);
 	if (nev < MAXEV) { EV[nev].slot = t; EV[nev].seq = seq; EV[nev].after_fini = __atomic_load_n(&fini_returned, __ATOMIC_ACQUIRE); EV[nev].by_app = pthread_equal(pthread_self(), app_thread); nev++; }
 	pthread_mutex_unlock(&evlock);
 	if (t == slow_slot && slow_us) usleep((useconds_t)slow_us);
+	if (!mine && t >= 0 && t <= QB_LOG_TARGET_MAX) __atomic_sub_fetch(&thread_in_logger[t], 1, __ATOMIC_SEQ_CST);
+}
+
+/* close callback of the custom targets: qb_log_ctl() keeps the logging thread out of the target while it changes it */
+static void closer(int32_t t)
+{
+	__atomic_add_fetch(&n_close_cb, 1, __ATOMIC_RELAXED);
+	if (t < 0 || t > QB_LOG_TARGET_MAX || __atomic_load_n(&in_custom_close, __ATOMIC_RELAXED)) return;
+	if (__atomic_load_n(&thread_in_logger[t], __ATOMIC_SEQ_CST) != 0)
+		vp_violation("logt:target-closed-during-write", "close callback of target %d (from qb_log_ctl) while the logging thread is inside its logger", t);
 }
 
 static int cap_fd = -1; static off_t cap_off;
@@ -117,7 +133,7 @@ static void run_case(long kase)
 		qb_log_ctl(QB_LOG_SYSLOG, QB_LOG_CONF_ENABLED, QB_FALSE);
 		int any_threaded = 0;
 		for (int i = 0; i < nt; i++) {
-			slot[i] = qb_log_custom_open(logger, NULL, NULL, NULL);
+			slot[i] = qb_log_custom_open(logger, closer, NULL, NULL);
 			threaded[i] = (i == 0) ? vp_chance(&r, 5, 6) : vp_chance(&r, 1, 2);
 			if (threaded[i]) any_threaded = 1;
 			qb_log_filter_ctl(slot[i], QB_LOG_FILTER_ADD, QB_LOG_FILTER_FILE, "*", LOG_TRACE);
@@ -170,8 +186,16 @@ static void run_case(long kase)
 				int i = 0; for (int k = 0; k < nt; k++) if (threaded[k]) { i = k; break; }
 				hz_slot = slot[i];
 				vp_desc("round=%d hazard=%d on slot %d at message %d", rd, hazard, slot[i], s);
-				if (hazard == 1) { qb_log_ctl(slot[i], QB_LOG_CONF_ENABLED, QB_FALSE); qb_log_ctl(slot[i], QB_LOG_CONF_ENABLED, QB_TRUE); }
-				else if (hazard == 2) { qb_log_custom_close(slot[i]); }
+				if (hazard == 1) {
+					if (__atomic_load_n(&thread_in_logger[slot[i]], __ATOMIC_SEQ_CST)) n_disable_probes_busy_before++;
+					qb_log_ctl(slot[i], QB_LOG_CONF_ENABLED, QB_FALSE);
+					/* disabled under the pause lock: no write to it can be in progress or begin until it is enabled again */
+					n_disable_probes++;
+					if (__atomic_load_n(&thread_in_logger[slot[i]], __ATOMIC_SEQ_CST) != 0)
+						vp_violation("logt:write-in-progress-after-disable", "qb_log_ctl(%d, ENABLED, FALSE) returned while the logging thread is inside the target's logger", slot[i]);
+					qb_log_ctl(slot[i], QB_LOG_CONF_ENABLED, QB_TRUE);
+				}
+				else if (hazard == 2) { __atomic_store_n(&in_custom_close, 1, __ATOMIC_RELAXED); qb_log_custom_close(slot[i]); __atomic_store_n(&in_custom_close, 0, __ATOMIC_RELAXED); }
 				else qb_log_ctl(slot[i], QB_LOG_CONF_THREADED, QB_FALSE);
 			}
 			if (signals && vp_chance(&r, 1, 60)) { usleep(300); poke_other_threads(); }   /* after a pause the logging thread is most likely idle */
@@ -245,7 +269,7 @@ int main(int argc, char **argv)
 	for (long k = vp.case_from; k < vp.case_to; k++) { vp_begin_case(k); run_case(k); }
 	vp_count("messages_logged", n_msgs); vp_count("logger_invocations", n_delivered); vp_count("drops_reported_and_matched", n_dropped_accounted);
 	vp_count("init_fini_rounds", n_rounds); vp_count("reinit_rounds", n_reinit); vp_count("control_ops_while_busy", n_ctl_ops);
-	vp_count("backlog_pressure_rounds", n_backlog_cases); vp_count("control_before_thread_start", n_ctl_before_start);
+	vp_count("backlog_pressure_rounds", n_backlog_cases); vp_count("close_callbacks", n_close_cb); vp_count("disable_probes", n_disable_probes); vp_count("disable_probes_thread_busy_before", n_disable_probes_busy_before); vp_count("control_before_thread_start", n_ctl_before_start);
 	vp_count("signals_sent_to_the_other_threads", n_signals_sent); vp_count("cases_run_on_a_loaded_machine", n_loaded_cases); vp_count("refused_control_operations_while_busy", n_bad_ctl);
 	vp_finish();
 	return 0;
